@@ -101,6 +101,22 @@ func freshClient(tag string) (*lcClient, *lcCons) {
 		&lcCons{ID: rt.U64(tag + ".consID"), CType: kind}
 }
 
+// the two parts of a proposal are independent values: the consensus state may be of another type than the client state
+func proposalPair(tag string) (*lcClient, *lcCons) {
+	c, cons := freshClient(tag)
+	cons.CType = clientKinds[rt.IntRange(tag+".consensusType", 0, 3)]
+	return c, cons
+}
+
+// a successful lifecycle operation installed a consensus state of the client's own type: one of another type can never be
+// read by the client (no proof at the installed height verifies) and fails genesis validation of the export (finding H19)
+func sameTypeInstalled(c *lcClient, cons *lcCons, tag string) {
+	if cons.CType != c.CType {
+		rt.Reach(tag + "-succeeded-with-a-consensus-state-of-another-type")
+	}
+	rt.Assert(tag+"-installed-consensus-state-is-of-the-client's-type", cons.CType == c.CType)
+}
+
 type lcWorld struct {
 	ctx   sdk.Context
 	k     Keeper
@@ -151,7 +167,7 @@ func proposalAnys(c *lcClient, cons *lcCons) (*codectypes.Any, *codectypes.Any) 
 
 func VerifC18Create() {
 	w := newLCWorld()
-	c, cons := freshClient("new")
+	c, cons := proposalPair("new")
 	a, b := proposalAnys(c, cons)
 	_, err := w.k.HandleCreateClient(w.ctx, &types.CreateClientProposal{Title: "t", Description: "d", ChainName: w.chain, ClientState: a, ConsensusState: b})
 	if w.old != nil {
@@ -162,12 +178,13 @@ func VerifC18Create() {
 		return // rolled back by the governance cache context (assumption A-gov-atomic)
 	}
 	rt.Reach("created")
+	sameTypeInstalled(c, cons, "L2-create")
 	w.installedIs(c, cons, "L2-create")
 }
 
 func VerifC18Upgrade() {
 	w := newLCWorld()
-	c, cons := freshClient("new")
+	c, cons := proposalPair("new")
 	a, b := proposalAnys(c, cons)
 	_, err := w.k.HandleUpgradeClient(w.ctx, &types.UpgradeClientProposal{Title: "t", Description: "d", ChainName: w.chain, ClientState: a, ConsensusState: b})
 	if w.old == nil || w.old.CType != c.CType {
@@ -178,14 +195,13 @@ func VerifC18Upgrade() {
 		return
 	}
 	rt.Reach("upgraded")
+	sameTypeInstalled(c, cons, "L2-upgrade")
 	w.installedIs(c, cons, "L2-upgrade")
 }
 
 func VerifC18Toggle() {
 	w := newLCWorld()
-	c, cons := freshClient("new")
-	// the two parts of a proposal are independent values: the consensus state may be of another type than the client state
-	cons.CType = clientKinds[rt.IntRange("new.consensusType", 0, 3)]
+	c, cons := proposalPair("new")
 	a, b := proposalAnys(c, cons)
 	_, err := w.k.HandleToggleClient(w.ctx, &types.ToggleClientProposal{Title: "t", Description: "d", ChainName: w.chain, ClientState: a, ConsensusState: b})
 	if w.old == nil || w.old.CType == c.CType {
@@ -197,10 +213,7 @@ func VerifC18Toggle() {
 	}
 	rt.Reach("toggled")
 	rt.Known("H2b-toggle-initialises-the-old-client", true)
-	if cons.CType != c.CType {
-		rt.Reach("toggled-with-a-consensus-state-of-another-type")
-		return // what such a pair installs is not specified by the property; that the client type changed is (L1 above)
-	}
+	sameTypeInstalled(c, cons, "L2-toggle")
 	w.installedIs(c, cons, "L2-toggle")
 }
 
